@@ -246,13 +246,28 @@ def op_renamevar(rng, f):
     new = 'r' + old if len(old) < 12 else old[:6] + 'r'
     if new in f.variables:
         return None
-    if rng.random() < 0.5:
+    r = rng.random()
+    if r < 0.4:
         return ('renameVariable(%s,%s)' % (old, new),
                 (lambda: f.renameVariable(old, new)), [], True,
                 {'old': old, 'new': new})
-    return ('renameVariables(%s=%s)' % (old, new),
-            (lambda: f.renameVariables(**{old: new})), [], True,
-            {'old': old, 'new': new})
+    if r < 0.72:
+        return ('renameVariables(%s=%s)' % (old, new),
+                (lambda: f.renameVariables(**{old: new})), [], True,
+                {'old': old, 'new': new})
+    if r < 0.86:
+        # only the renamed variable is carried over
+        return ('renameVariables(%s=%s,copyall=False)' % (old, new),
+                (lambda: f.renameVariables(copyall=False, **{old: new})), [],
+                True, {'old': old, 'new': new, 'copyall': False})
+    others = [k for k in keys if k != old]
+    if not others:
+        return None
+    # onto the name of another variable, which it replaces
+    tgt = str(rng.choice(others))
+    return ('renameVariables(%s=%s) [existing name]' % (old, tgt),
+            (lambda: f.renameVariables(**{old: tgt})), [], True,
+            {'old': old, 'new': tgt, 'collide': True})
 
 
 def op_renamedim(rng, f):
@@ -319,6 +334,12 @@ def op_reorder(rng, f):
 
 def op_mask(rng, f):
     if not all_numeric(f):
+        return None
+    if is_ioapi(f) and any(k in f.variables and k not in f.getCoords()
+                           for k in ('time', 'time_bounds')):
+        # masking would blank the CF time coordinate the file's time
+        # metadata is read from: later time-dependent calls would be
+        # outside their domain
         return None
     kw = {}
     opts = ['less', 'less_equal', 'greater', 'greater_equal', 'values',
